@@ -1,11 +1,12 @@
 """C03 — routed set/call.  Proof: Cjet.Props.C03; tie: simk vs model incl. routing tables and timers; monitor on the trace."""
-from vlib import dcheck
+from vlib import dcheck, directed
 
 LEVEL = "proof"
 
 
 def run(ctx, out):
     dcheck.run_property(ctx, out, "C03", "mon_c03", n_quick=300, n_thorough=5000,
-                        gen_kw=dict(ws_share=0.35, batches=0.08, malformed=0.03))
+                        gen_kw=dict(ws_share=0.35, batches=0.08, malformed=0.03),
+                        directed=directed.regressions() + directed.batch_orders())
     dcheck.run_more(ctx, out, "C03", "mon_c03", n_quick=120, n_thorough=1500,
                     gen_kw=dict(variant="small", ws_share=0.2, single=True), tag="small")
